@@ -2317,6 +2317,10 @@ impl<'a> Searcher<'a> {
                     }
                 }
                 VariantType::Bool => {
+                    // the empty literal is no boolean either (an empty VALUE is: a column without one)
+                    if literal && value.to_string().is_empty() {
+                        error_exit("Can't parse boolean value", "");
+                    }
                     let val = value.to_bool();
                     match op {
                         Op::Eq | Op::Eeq => field_value.to_bool() == val,
